@@ -21,6 +21,10 @@ Exploration (bounded, exhaustive, nothing sampled):
   (buf[1:], buf[:-1]) of one buffer and are only read; out is a separate register / new element.
 * kind ``range``: lincomb over all 27 triples with scalars and entries that are powers of two
   near the ends of the exponent range; judged only where a*x1, b*x2 and their sum are finite.
+* dtype sweep (kinds lincomb / arith / bcast / overlap / range): besides the main dtypes every
+  other dtype class the library builds - half, extended precision (longdouble, clongdouble),
+  complex64, non-native byte order, the remaining signed / unsigned integers - in every size
+  regime with contiguous and strided registers.
 * kind ``hist`` (history space): breadth-first search over sequences of in-place operations
   on the register file, depth 2 (thorough: 3 on two spaces), states canonicalised by register
   contents; the reference model is stepped alongside.
@@ -1441,6 +1445,7 @@ DT_X_FLOAT = ['longdouble', 'clongdouble', 'float16', 'complex64', '>f8']
 DT_X_INT = ['int32', 'int16', 'int8', 'uint8', 'uint16', 'uint32', 'uint64', '>i4']
 X_SHAPES_FLOAT = [[3], [100], [50000], [250, 200]]
 X_SHAPES_INT = [[3], [100], [50000]]
+X_SKIP = [['T', [250, 200], 'clongdouble']]      # (cost; the 2-d large case runs with longdouble)
 
 RN = lambda n, dt='float64': ['T', [n], dt]      # noqa
 
@@ -1559,6 +1564,7 @@ def configs(tier):
     # the float-like ones, where C / F contiguity decides the ravel order of the BLAS branch)
     tens += [['T', sh, dt] for dt in DT_X_FLOAT if dt not in dts for sh in X_SHAPES_FLOAT]
     tens += [['T', sh, dt] for dt in DT_X_INT if dt not in dts for sh in X_SHAPES_INT]
+    tens = [t for t in tens if t not in X_SKIP]
     discr = (DISCR_T if thorough else DISCR_Q) + DISCR_X
     psp = (PSPACES_T if thorough else PSPACES_Q) + PSPACES_X
 
@@ -1605,8 +1611,14 @@ def configs(tier):
     for spec in tens + discr + psp:
         if spec[0] == 'T' and spec[1] in ([49999], [50001], [40, 25, 50]):
             continue        # regimes of the layer below are the business of the lincomb kind
-        for lay in ar_combos(spec):
-            for mode in modes(spec):
+        lays, mds = ar_combos(spec), modes(spec)
+        if _is_big(spec) and _spec_dtype(spec) not in dts:
+            # dtype sweep, large arrays: the derived API over contiguous registers (the ones
+            # the dtype arm of the dispatch matters for), zero divisors are left to the small ones
+            lays = [x for x in lays if len(set(x)) == 1 and x[0] in 'CF']
+            mds = mds[:2]
+        for lay in lays:
+            for mode in mds:
                 cfgs.append({'kind': 'arith', 'space': spec, 'lay': lay, 'mode': mode,
                              'tier': tier})
 
@@ -1660,7 +1672,7 @@ def configs(tier):
            (RN(101, 'complex128'), ['C', 'C', 'C']), (['U', [10, 10], 'float64'], ['F', 'C', 'C']),
            (['P', RN(120), RN(3)], ['C', 'C', 'C']),
            (RN(100, 'longdouble'), ['C', 'C', 'C']), (RN(50000, 'longdouble'), ['C', 'C', 'C']),
-           (RN(50000, 'clongdouble'), ['C', 'C', 'C']), (RN(50000, 'complex64'), ['C', 'C', 'C'])]
+           (RN(100, 'clongdouble'), ['C', 'C', 'C']), (RN(50000, 'complex64'), ['C', 'C', 'C'])]
     if thorough:
         rsp += [(RN(99), ['C', 'C', 'C']), (RN(49999), ['C', 'C', 'C']),
                 (RN(50000, 'complex128'), ['C', 'C', 'C']),
@@ -1743,6 +1755,16 @@ def meta(tier):
             'sizes_1d': ONE_D if th else [n for n in ONE_D if n != 50001],
             'shapes_2d': TWO_D, 'shapes_3d': THREE_D_T if th else THREE_D,
             'dtypes': DT_T if th else DT_Q,
+            'dtype_sweep': {
+                'float_like': [d for d in DT_X_FLOAT if d not in (DT_T if th else DT_Q)],
+                'shapes_float_like': X_SHAPES_FLOAT,
+                'int_like': [d for d in DT_X_INT if d not in (DT_T if th else DT_Q)],
+                'shapes_int_like': X_SHAPES_INT, 'not_run': X_SKIP,
+                'discretized': DISCR_X, 'product_spaces': PSPACES_X,
+                'kinds': 'lincomb (same layout triples as the main dtypes), arith (>= 10000 '
+                         'entries: contiguous uniform triples, modes V and D), bcast, overlap '
+                         '(sizes 100, 50000), range (longdouble 100 / 50000, clongdouble 100, '
+                         'complex64 50000)'},
             'layouts': {'1d': layouts_for(1, tier), '2d': layouts_for(2, tier),
                         '3d': layouts_for(3, tier),
                         'legend': 'C, F contiguous; S0/S1 every second entry along the first/'
@@ -1798,6 +1820,12 @@ def meta(tier):
             '8 eps x magnitude because the fallback axpy divides by the scalar and multiplies '
             'back; results inside that tolerance but not bit-exact are counted in '
             'diagnostic_within_tolerance_but_not_bit_exact',
+            'longdouble / clongdouble registers are compared by value (nan == nan, sign of zero '
+            'included) instead of byte-wise: their padding bytes are not part of the value; the '
+            'reference computes in the dtype itself when it is wider than float64 / complex128; '
+            'no history kind for them (padding would make the state key non-deterministic)',
+            'dtype sweep: bool / string dtypes are outside the property (float/complex/integer); '
+            'non-native byte order is enumerated for real float and int only',
             'shape () (space.size reports 0) and empty spaces are not enumerated (documentation '
             'asks for positive ints)',
             'left operands that are NumPy scalars/arrays dispatch through __array_ufunc__ '
